@@ -41,7 +41,18 @@ type State struct {
 	writes       []WriteRec
 	iterPos      map[int]*Term
 	onceDone     map[*Term]bool
+	locks        map[*Term]bool
+	spawned      []spawn
+	atomicWrites int
 	dead         bool
+}
+
+type spawn struct {
+	fn   *Term
+	args []*Term
+	recv *Term // invoke mode: receiver and method
+	meth *types.Func
+	rtyp types.Type
 }
 
 func (s *State) clone() *State {
@@ -76,6 +87,11 @@ func (s *State) clone() *State {
 	for k, v := range s.onceDone {
 		n.onceDone[k] = v
 	}
+	n.locks = make(map[*Term]bool, len(s.locks))
+	for k, v := range s.locks {
+		n.locks[k] = v
+	}
+	n.spawned = append([]spawn(nil), s.spawned...)
 	n.trace = append([]Event(nil), s.trace...)
 	n.funcTrace = append([]Event(nil), s.funcTrace...)
 	n.writes = append([]WriteRec(nil), s.writes...)
@@ -138,6 +154,9 @@ type Exec struct {
 	discovering int
 	mergedDepth int
 	curLoop     *loopCtx
+	relyPtr, guarPtr, relyVal, guarVal *Term
+	tailrec     map[string]bool
+	nAtomic     int
 	recFuel     map[*ssa.Function]int
 	nFrame      int
 	frameOff    bool
@@ -160,7 +179,7 @@ func NewExec(c *Ctx, p *Program) *Exec {
 }
 
 func NewState() *State {
-	return &State{known: map[*Term]bool{}, cells: map[int]*Term{}, heap: map[string]*Term{}, arrs: map[string]*Term{}, maps: map[string]*Term{}, iterPos: map[int]*Term{}, onceDone: map[*Term]bool{}}
+	return &State{known: map[*Term]bool{}, cells: map[int]*Term{}, heap: map[string]*Term{}, arrs: map[string]*Term{}, maps: map[string]*Term{}, iterPos: map[int]*Term{}, onceDone: map[*Term]bool{}, locks: map[*Term]bool{}}
 }
 
 // assume adds cond to the path condition; false result = path infeasible.
@@ -644,6 +663,11 @@ func (x *Exec) callFunc(st *State, fn *ssa.Function, args []*Term, bindings []*T
 				}
 			}
 			if same {
+				if x.tailrec[originOf(fn).Name()] {
+					// retry loop written as a tail call: partial correctness by induction on the
+					// number of retries (the recursive call returns what the contract promises)
+					return nil
+				}
 				return []Outcome{{st: st, kind: ODiverge, reason: "recursion re-enters " + fn.String() + " with identical arguments"}}
 			}
 		}
@@ -1167,7 +1191,21 @@ func (x *Exec) runFrom(fr *Frame, st *State, b *ssa.BasicBlock, i int) []Outcome
 				}
 				return res
 			case *ssa.Go:
-				return abortOut(st, "go statement in %s", fr.fn)
+				// the new goroutine is a task that runs later (verifspec.RunSpawned runs the pending ones)
+				sp := spawn{}
+				for _, a := range ins.Call.Args {
+					sp.args = append(sp.args, x.val(fr, a))
+				}
+				if ins.Call.IsInvoke() {
+					sp.recv = x.val(fr, ins.Call.Value)
+					sp.meth = ins.Call.Method
+					sp.rtyp = ins.Call.Value.Type()
+				} else if _, isB := ins.Call.Value.(*ssa.Builtin); isB {
+					return abortOut(st, "go <builtin> in %s", fr.fn)
+				} else {
+					sp.fn = x.val(fr, ins.Call.Value)
+				}
+				st.spawned = append(st.spawned, sp)
 			case *ssa.Send, *ssa.Select:
 				return abortOut(st, "channel operation in %s", fr.fn)
 			case *ssa.Range:
